@@ -297,6 +297,122 @@ def simple_check(pid, tier, seed, spec):
         shutil.rmtree(od, ignore_errors=True)
 
 
+# --------------------------------------------------------------------------- sanitizer stages
+
+VMIRI = os.path.join(HARNESS, "vmiri")
+
+
+def miri_stage(pid, seed, ops_total, outdir, nproc=NCPU, timeout=1800):
+    """Run the vmiri workloads under the Miri interpreter, sharded over processes.
+    Returns (summary dict, violations dict, inconclusive list)."""
+    summ = {"tool": "cargo +nightly miri run (vmiri)", "ops": 0, "checks": 0, "processes": 0}
+    viol, inconc = {}, []
+    e = dict(ENV)
+    e["MIRIFLAGS"] = "-Zmiri-disable-isolation"
+    # build once (ops = 0), then run the shards in parallel
+    b = subprocess.run(["cargo", "+nightly", "miri", "run", "--offline", "--", str(seed), "0", "1", "0"], cwd=VMIRI, env=e, stdout=subprocess.PIPE, stderr=subprocess.STDOUT, text=True)
+    if b.returncode != 0 or "VMIRI ok" not in b.stdout:
+        if "Undefined Behavior" in b.stdout:
+            viol["%s|miri|undefined-behaviour" % pid] = {"count": 1, "examples": [{"detail": {"what": b.stdout[-3000:]}, "replay": []}]}
+        else:
+            inconc.append("miri stage could not be built/run: %s" % b.stdout[-1500:].replace("\n", " | "))
+        return summ, viol, inconc
+    procs = []
+    for k in range(nproc):
+        out = open(os.path.join(outdir, "miri%d.out" % k), "w")
+        procs.append((k, out, subprocess.Popen(["cargo", "+nightly", "miri", "run", "--offline", "--", str(seed), str(k), str(nproc), str(ops_total)], cwd=VMIRI, env=e, stdout=out, stderr=subprocess.STDOUT)))
+    deadline = time.time() + timeout
+    for k, out, p in procs:
+        try:
+            rc = p.wait(timeout=max(1, deadline - time.time()))
+        except subprocess.TimeoutExpired:
+            p.kill()
+            p.wait()
+            rc = "timeout"
+        out.close()
+        txt = open(out.name).read()
+        ok = [l for l in txt.splitlines() if l.startswith("VMIRI ok")]
+        if rc == 0 and ok:
+            kv = dict(x.split("=") for x in ok[-1].split()[2:])
+            summ["ops"] += int(kv.get("ops", 0))
+            summ["checks"] += int(kv.get("checks", 0))
+            summ["processes"] += 1
+            for key in ("array_decodes", "byteslice_ops", "writer_ops"):
+                summ[key] = summ.get(key, 0) + int(kv.get(key, 0))
+        elif "Undefined Behavior" in txt or "VMIRI-FAIL" in txt or "memory leaked" in txt:
+            kind = "undefined-behaviour" if "Undefined Behavior" in txt else ("leak" if "memory leaked" in txt else "logical-failure")
+            lines = [l for l in txt.splitlines() if "Undefined Behavior" in l or "VMIRI-FAIL" in l or "memory leaked" in l or "-->" in l]
+            sig = "%s|miri|%s" % (pid, kind)
+            v = viol.setdefault(sig, {"count": 0, "examples": []})
+            v["count"] += 1
+            if len(v["examples"]) < 2:
+                v["examples"].append({"detail": {"what": " ; ".join(lines[:8])[:1500], "shard": k, "seed": seed, "rerun": "cd harness/vmiri && cargo +nightly miri run --offline -- %d %d %d %d" % (seed, k, nproc, ops_total)}, "replay": []})
+        else:
+            inconc.append("miri shard %d ended rc=%s without a verdict: %s" % (k, rc, txt[-400:].replace("\n", " | ")))
+    return summ, viol, inconc
+
+
+def asan_stage(pid, sub, seed, outdir, timeout=3600):
+    """Re-run a worker sub-command under an AddressSanitizer+LeakSanitizer build."""
+    summ = {"tool": "rustc -Zsanitizer=address (nightly), ASAN_OPTIONS=halt_on_error=1:detect_leaks=1", "evaluations": 0}
+    viol, inconc = {}, []
+    tdir = os.path.join(HARNESS, "target", "asan")
+    try:
+        cargo_build(["--target", "x86_64-unknown-linux-gnu", "--target-dir", tdir, "-p", "vmain"], toolchain="+nightly", what="ASan harness",
+                    env={"RUSTFLAGS": "--cfg minicbor_verif --cfg verif_no_alloc_monitor -Zsanitizer=address -Cforce-frame-pointers=yes"})
+    except Inconclusive as ex:
+        inconc.append("ASan build failed: %s" % str(ex)[-800:])
+        return summ, viol, inconc
+    binary = os.path.join(tdir, "x86_64-unknown-linux-gnu", "release", "vmain")
+    reports, problems = run_workers(binary, sub, "asan", seed, NCPU, outdir, timeout=timeout, tag="asan",
+                                    env={"ASAN_OPTIONS": "halt_on_error=1:abort_on_error=1:detect_leaks=1", "VERIF_WATCHDOG_SECS": "900"})
+    m = merge_reports(reports)
+    summ["evaluations"] = m["evaluations"]
+    for sig, v in m["violations"].items():
+        viol["%s [asan build]" % sig] = v
+    for pr in problems:
+        tail = pr.get("stderr_tail") or ""
+        if "AddressSanitizer" in tail or "LeakSanitizer" in tail:
+            first = [l.strip() for l in tail.splitlines() if "ERROR:" in l or "SUMMARY:" in l]
+            frames = [l.strip() for l in tail.splitlines() if "/repo/" in l]
+            sig = "%s|asan|%s" % (pid, (frames[0].split(" in ")[-1] if frames else (first[0] if first else "report"))[:120])
+            v = viol.setdefault(sig, {"count": 0, "examples": []})
+            v["count"] += 1
+            if len(v["examples"]) < 2:
+                v["examples"].append({"detail": {"what": " ; ".join(first + frames[:6])[:1500], "shard": pr.get("shard")}, "replay": []})
+        else:
+            inconc.append("asan shard %s failed (%s): %s" % (pr.get("shard"), pr.get("kind"), tail[-300:].replace("\n", " | ")))
+    return summ, viol, inconc
+
+
+def sanitized_check(pid, tier, seed, spec):
+    """Workers + Miri shard (both tiers) + ASan re-run (thorough)."""
+    t0 = time.time()
+    vmain = build_vmain()
+    od = outdir_for(pid, tier)
+    try:
+        reports, problems = run_workers(vmain, spec["sub"], tier, seed, NCPU, od, timeout=spec.get("timeout", {}).get(tier, 7200))
+        merged = merge_reports(reports)
+        dh = merge_hashes(vmain, [od])
+        san = {}
+        ops = spec.get("miri_ops", {}).get(tier, 0)
+        if ops:
+            ms, mv, mi = miri_stage(pid, seed, ops, od)
+            san["miri"] = ms
+            merged["violations"].update(mv)
+            merged["inconclusive"] += mi
+            merged["evaluations"] += ms["ops"]
+        if tier == "thorough" and spec.get("asan"):
+            as_, av, ai = asan_stage(pid, spec["sub"], seed, od)
+            san["asan"] = as_
+            merged["violations"].update(av)
+            merged["inconclusive"] += ai
+            merged["evaluations"] += as_["evaluations"]
+        return finish(pid, tier, seed, spec, merged, problems, dh, time.time() - t0, {"sanitizers": san})
+    finally:
+        shutil.rmtree(od, ignore_errors=True)
+
+
 # --------------------------------------------------------------------------- check table
 
 COMMON_ASSUMPTIONS = [
@@ -315,6 +431,19 @@ CHECKS = {
         "level_note": "Trusted: the per-type equality in harness/vmain/src/subj.rs and the generators' coverage of boundaries; HashSet/HashMap iteration order varies per process, which only permutes encodings.",
         "assumptions": COMMON_ASSUMPTIONS + ["Option<Option<_>>, IPv6 flow-info/scope-id are excluded as the property states; pre-epoch SystemTime and non-UTF-8 paths are generated and must be refused without panic"],
     },
+}
+
+CHECKS["C02"] = {
+    "sub": "c02",
+    "runner": sanitized_check,
+    "miri_ops": {"quick": 640, "thorough": 8000},
+    "asan": True,
+    "level": "exploration",
+    "technique": "runtime monitoring with sanitizers: panic/step/allocation/position/drop monitors over hostile inputs; Miri on the unsafe paths; AddressSanitizer+LeakSanitizer re-run",
+    "rule": "inputs: all byte strings of length <= 2 (quick) / 3 (thorough); all 256 initial bytes x every argument width x boundary arguments x fillers, alone and nested in 8 contexts; type-directed mutants of valid encodings of every built-in type, of random item trees and of arrays aimed at the [T; N] paths; large hostile inputs. Each input runs through ~185 entry points (typed decode of every built-in type incl. drop-tracking containers, every accessor, skip, iterators drained and abandoned, tokens, probe, info::Size) and through random sequences of <= 8 decoder calls interleaved with set_position (incl. usize::MAX). distinct = enumerated inputs + distinct hashed mutants (each x all entry points)",
+    "level_text": "Totality is an invariant, so no reference is needed: every call is wrapped in a panic guard, a step budget on the decoder's input-access hook (64*len+256; exceeding it is a non-termination verdict independent of machine load), a counting allocator (16 KiB + 128*len peak, no single request above it, nothing retained), a position check and a drop-exactly-once monitor. The short-string space is enumerated completely, the declared-length space by boundary sweep, and the unsafe ArrayVec/ByteSlice code additionally runs under Miri (both tiers) and ASan/LSan (thorough).",
+    "level_note": "Trusted: the step hook covers every decoder loop (each iteration calls current/read/peek/read_slice). Bounds are generous constants; pre-allocation from a declared length is >= 10^6 x larger. Inputs >= 2 GiB and 32-bit targets are out of reach. A clean Miri/ASan run covers the driven paths only.",
+    "assumptions": COMMON_ASSUMPTIONS + ["user-defined recursive types are outside 'supported types'", "a decoding call may move the cursor to at most max(len, position before the call); from a position > len every call must fail"],
 }
 
 CHECKS["C03"] = {
